@@ -6,9 +6,11 @@ import (
 	"math/rand"
 	"sort"
 	"strconv"
+	"strings"
 	"testing"
 
 	"github.com/prometheus/prometheus/storage"
+	"github.com/prometheus/prometheus/tsdb/encoding"
 	"github.com/prometheus/prometheus/tsdb/index"
 
 	"github.com/thanos-io/thanos/pkg/store"
@@ -600,6 +602,117 @@ func runC12(c vt.Case) vt.Event {
 		}()
 		results[i].Intact = string(blobs[i]) == string(pristine[i])
 	}
+	// ---- which decoder reads which encoding: every encoder x every decoder entry point ----
+	// encoders: dvs, dss, dss2 (the blobs above), be32 (raw big-endian postings as the index stores
+	// them and as an uncompressed cache entry holds them; only when every value fits 32 bits), and
+	// blobs with a damaged / truncated / missing prefix. Decoder entry points: hdr = decodePostings
+	// (dispatch on the prefix), cached = bucketIndexReader.decodeCachedPostings (prefix, else raw
+	// big-endian), dvs / dss = the codec's own decoder.
+	type crossObs struct {
+		Err     string    `json:"err"`
+		Panic   string    `json:"panic"`
+		Decoded [][]int64 `json:"decoded"`
+	}
+	type crossGroup struct {
+		Combos []string `json:"combos"`
+		crossObs
+	}
+	encBlobs := map[string][]byte{}
+	for i, v := range variants {
+		if v.byHeader && blobs[i] != nil {
+			encBlobs[v.codec] = pristine[i]
+		}
+	}
+	fits32 := true
+	for _, v := range list {
+		fits32 = fits32 && v <= 0xffffffff
+	}
+	if fits32 {
+		offs := make([]uint32, len(list))
+		for i, v := range list {
+			offs[i] = uint32(v)
+		}
+		var eb encoding.Encbuf
+		if err := index.EncodePostingsRaw(&eb, offs); err == nil {
+			encBlobs["be32"] = eb.Get()
+		}
+	}
+	for _, cd := range []string{"dvs", "dss"} {
+		if b, ok := encBlobs[cd]; ok && len(b) >= 3 {
+			encBlobs[cd+":badprefix"] = append([]byte("dvx"), b[3:]...)
+			encBlobs[cd+":cut2"] = append([]byte(nil), b[:2]...)
+			encBlobs[cd+":noprefix"] = append([]byte(nil), b[3:]...)
+		}
+	}
+	encBlobs["empty"] = []byte{}
+	var cross []*crossGroup
+	crossSeen := map[string]*crossGroup{}
+	encNames := make([]string, 0, len(encBlobs))
+	for k := range encBlobs {
+		encNames = append(encNames, k)
+	}
+	sort.Strings(encNames)
+	for _, en := range encNames {
+		for _, dn := range []string{"hdr", "cached", "dvs", "dss"} {
+			if strings.Contains(en, ":") || en == "empty" {
+				if dn != "hdr" { // damaged prefixes are only judged at the dispatching decoder
+					continue
+				}
+			}
+			var o crossObs
+			o.Decoded = [][]int64{}
+			func() {
+				defer func() {
+					if r := recover(); r != nil {
+						o.Panic = fmt.Sprint(r)
+					}
+				}()
+				data := append([]byte(nil), encBlobs[en]...)
+				var p index.Postings
+				var cl func()
+				var err error
+				switch dn {
+				case "hdr":
+					p, cl, err = store.VerifDecodePostings("dss", data, true, false)
+				case "cached":
+					p, cl, err = store.VerifDecodeCachedPostings(data)
+				default:
+					p, cl, err = store.VerifDecodePostings(dn, data, false, false)
+				}
+				if err != nil {
+					o.Err = err.Error()
+					return
+				}
+				var got []uint64
+				for p.Next() {
+					got = append(got, uint64(p.At()))
+					if len(got) > len(list)+8 {
+						break
+					}
+				}
+				if e := p.Err(); e != nil {
+					o.Err = e.Error()
+				}
+				if cl != nil {
+					cl()
+				}
+				if o.Err == "" {
+					o.Decoded = c12Runs(ints(got))
+				}
+			}()
+			kb, _ := json.Marshal(o)
+			name := en + ">" + dn
+			if g, ok := crossSeen[string(kb)]; ok {
+				g.Combos = append(g.Combos, name)
+				continue
+			}
+			g := &crossGroup{Combos: []string{name}, crossObs: o}
+			crossSeen[string(kb)] = g
+			cross = append(cross, g)
+		}
+	}
+	ev["cross"] = cross
+	ev["fits32"] = fits32
 	// group identical observations
 	type group struct {
 		Variants []string `json:"variants"`
